@@ -294,6 +294,18 @@ def run_one(rng, counters):
             opts["ignore_read_groups"] = True
         if nsamp == 2 and rng.random() < 0.3:
             opts["samples"] = [samples[0]]
+        if opts.get("samples") and nsamp == 2 and P == 2 and rng.random() < 0.4:
+            # the sample that was not selected has haploid calls (a male sample on chrX): they do not concern the tagging of the other
+            u = doc.samples.index(samples[1])
+            which = rng.choice(sim.chroms)
+            for r_ in doc.records:
+                if r_["chrom"] == which and rng.random() < 0.6:
+                    r_["calls"][u]["GT"] = rng.choice(["0", "1"])
+                    for k_ in ("PS", "HP"):
+                        if k_ in r_["calls"][u]:
+                            r_["calls"][u][k_] = "."
+            doc.write(vcf, compress=True)
+            opts["haploid_calls_of_unselected_sample"] = True
         rmode = rng.random()
         if rmode < 0.2:
             c = rng.choice(sim.chroms)
@@ -369,6 +381,8 @@ def run_one(rng, counters):
             if opts.get("regions") and "not ordered" in tb:
                 # the generated VCF is sorted: the complaint is about the order / overlap of the requested regions
                 return [{"mech": "crash:sorted-vcf-refused-as-unordered:regions", "msg": "run_haplotag raised: " + tb[-900:] + " regions %r" % (opts["regions"],)}], False, desc
+            if "ploidy" in tb.lower() and opts.get("haploid_calls_of_unselected_sample"):
+                return [{"mech": "refused:haploid-call-of-unselected-sample", "msg": "only %r is tagged and is diploid everywhere; refused because of the other sample's calls: %s" % (opts["samples"], tb[-300:])}], False, desc
             if "CommandLineError" in tb or "VcfNotSortedError" in tb:
                 counters["refused"] = counters.get("refused", 0) + 1
                 return [], False, desc
